@@ -94,8 +94,8 @@ class BiLinearForm(_Form):
                 # sum on gauss points
                 values_e = (values_e_pg * dX_e_pg).integrate()
 
-                # add data
-                data[:, i, j] = values_e
+                # add data (a scalar field carries a trailing axis of size 1, as in LinearForm)
+                data[:, i, j] = np.reshape(values_e, -1)
 
         return data
 
